@@ -40,6 +40,13 @@ struct Taps
         bool armed = false, fired = false;
         uint64_t nth = 0;
     } f4;
+    // F9: at the k-th statement boundary the second party takes (and keeps) a write lock
+    struct
+    {
+        bool armed = false, fired = false, attempted = false;
+        int ordinal = 0;
+    } f9;
+    bool (*contention_hook)() = nullptr;  // returns true if the lock was obtained
 
     // ---- watchdogs (deterministic)
     uint64_t tick_limit = 4000000;
